@@ -109,9 +109,9 @@ Proof.
   destruct Hv as [Hv _]. destruct v as [|c v]; [exfalso; apply Hv; reflexivity|reflexivity].
 Qed.
 
-Lemma unembed_embed_via a : wf_via a = true -> unembed_via (embed_via a) = a.
+Lemma unembed_embed_via a : wf_via_shape a = true -> unembed_via (embed_via a) = a.
 Proof.
-  intros H. pose proof (wf_via_inv a H) as (_ & _ & _ & _ & Hport & Hps).
+  intros H. pose proof (wf_via_shape_inv a H) as (_ & _ & _ & _ & Hport & Hps).
   destruct a as [n ve t h p ps]. unfold embed_via, unembed_via.
   cbn [av_name av_version av_transport av_host av_port av_params v_name v_version v_transport v_host v_port v_params] in *.
   f_equal.
@@ -122,9 +122,9 @@ Proof.
 Qed.
 
 (* a concrete entry of the C14 grammar *)
-Definition vp_ok (v : via_param) : bool := wf_via (unembed_via v).
+Definition vp_ok (v : via_param) : bool := wf_via_shape (unembed_via v).
 
-Lemma vp_ok_embed a : wf_via a = true -> vp_ok (embed_via a) = true.
+Lemma vp_ok_embed a : wf_via_shape a = true -> vp_ok (embed_via a) = true.
 Proof. intros H. unfold vp_ok. rewrite unembed_embed_via by exact H. exact H. Qed.
 
 Lemma vp_print_rp v : vp_ok v = true -> via_param_print v = rp_via1 (unembed_via v).
@@ -183,9 +183,9 @@ Proof.
 Qed.
 
 (* ---- the text of an entry of the grammar: no blank inside its two halves ---- *)
-Lemma via_proto_text a : wf_via a = true -> via_proto a <> [] /\ nospace (via_proto a).
+Lemma via_proto_text a : wf_via_shape a = true -> via_proto a <> [] /\ nospace (via_proto a).
 Proof.
-  intros H. apply wf_via_inv in H. destruct H as (Hn & Hv & Ht & _).
+  intros H. apply wf_via_shape_inv in H. destruct H as (Hn & Hv & Ht & _).
   apply safe1_inv in Hn, Hv, Ht. destruct Hn as [Nn Hn], Hv as [_ Hv], Ht as [_ Ht].
   unfold via_proto. split.
   - destruct (av_name a); [exfalso; apply Nn; reflexivity|discriminate].
@@ -194,9 +194,9 @@ Proof.
     apply nospace_app; [apply safe_nospace; exact Hv|].
     apply nospace_cons; [reflexivity|apply safe_nospace; exact Ht].
 Qed.
-Lemma via_sentby_text a : wf_via a = true -> via_sentby a <> [] /\ nospace (via_sentby a).
+Lemma via_sentby_text a : wf_via_shape a = true -> via_sentby a <> [] /\ nospace (via_sentby a).
 Proof.
-  intros H. apply wf_via_inv in H. destruct H as (_ & _ & _ & Hh & _).
+  intros H. apply wf_via_shape_inv in H. destruct H as (_ & _ & _ & Hh & _).
   apply safe1_inv in Hh. destruct Hh as [Nh Hh]. unfold via_sentby. split.
   - destruct (av_host a); [exfalso; apply Nh; reflexivity|discriminate].
   - apply nospace_app; [apply safe_nospace; exact Hh|apply rp_port_nospace].
@@ -220,12 +220,12 @@ Lemma rp_via1_two a :
   rp_via1 a = via_proto a ++ " "%char :: (via_sentby a ++ rp_params (av_params a)).
 Proof. rewrite rp_via1_shape. unfold via_head. rewrite <- app_assoc. reflexivity. Qed.
 
-Lemma rp_via1_parts a : wf_via a = true ->
+Lemma rp_via1_parts a : wf_via_shape a = true ->
   via_proto a <> [] /\ via_sentby a ++ rp_params (av_params a) <> [] /\
   nospace (via_proto a) /\ nospace (via_sentby a ++ rp_params (av_params a)).
 Proof.
   intros H. destruct (via_proto_text a H) as [P1 P2]. destruct (via_sentby_text a H) as [S1 S2].
-  pose proof (wf_via_inv a H) as (_ & _ & _ & _ & _ & Hps).
+  pose proof (wf_via_shape_inv a H) as (_ & _ & _ & _ & _ & Hps).
   split; [exact P1|]. split; [|split; [exact P2|]].
   - destruct (via_sentby a); [exfalso; apply S1; reflexivity|discriminate].
   - apply nospace_app; [exact S2|apply rp_params_nospace; exact Hps].
@@ -272,7 +272,7 @@ Qed.
 
 (* the text of an entry as the judge trims it: the name loses its leading Unicode white space, if
    any; nothing else changes (the text ends with a byte that is no blank) *)
-Lemma jt_rp_via1 a : wf_via a = true ->
+Lemma jt_rp_via1 a : wf_via_shape a = true ->
   j_trim_via (rp_via1 a) = via_proto_t a ++ " "%char :: (via_sentby a ++ rp_params (av_params a)).
 Proof.
   intros H. destruct (rp_via1_parts a H) as (_ & B & _ & D).
@@ -301,10 +301,10 @@ Proof.
   unfold via_head. intros I. apply in_app_or in I. apply in_or_app.
   destruct I as [I|I]; [left; exact (via_proto_t_in _ _ I)|right; exact I].
 Qed.
-Lemma via_proto_t_split a : wf_via a = true ->
+Lemma via_proto_t_split a : wf_via_shape a = true ->
   split_byte "/"%char (via_proto_t a) = [trim_left_go (av_name a); av_version a; av_transport a].
 Proof.
-  intros H. apply wf_via_inv in H. destruct H as (Hn & Hv & Ht & _).
+  intros H. apply wf_via_shape_inv in H. destruct H as (Hn & Hv & Ht & _).
   apply safe1_inv in Hn, Hv, Ht. destruct Hn as [_ Hn], Hv as [_ Hv], Ht as [_ Ht].
   unfold via_proto_t.
   rewrite split_byte_app by (intros I; exact (safe_no_slash _ Hn (trim_left_go_in _ _ I))).
@@ -313,9 +313,9 @@ Proof.
 Qed.
 
 (* the judge's reading of the (trimmed) reference text of an abstract entry *)
-Theorem j_via_rp a : wf_via a = true -> j_via (j_trim_via (rp_via1 a)) = Some (ja_of a).
+Theorem j_via_rp a : wf_via_shape a = true -> j_via (j_trim_via (rp_via1 a)) = Some (ja_of a).
 Proof.
-  intros H. pose proof (wf_via_inv a H) as (_ & _ & _ & _ & Hport & Hps).
+  intros H. pose proof (wf_via_shape_inv a H) as (_ & _ & _ & _ & Hport & Hps).
   destruct (via_proto_text a H) as [_ P2]. destruct (via_sentby_text a H) as [S1 S2].
   rewrite (jt_rp_via1 a H).
   replace (via_proto_t a ++ " "%char :: (via_sentby a ++ rp_params (av_params a)))
@@ -336,7 +336,7 @@ Proof.
   - reflexivity.
 Qed.
 
-Lemma rp_via1_lf a : wf_via a = true -> lf_free (rp_via1 a).
+Lemma rp_via1_lf a : wf_via_shape a = true -> lf_free (rp_via1 a).
 Proof.
   intros H. rewrite rp_via1_two. destruct (rp_via1_parts a H) as (_ & _ & C & D).
   intros I. apply in_app_or in I. destruct I as [I|[I|I]].
@@ -349,7 +349,7 @@ Qed.
 Definition jline (x : bytes) : option (list jvia) :=
   opt_all (map j_via (map j_trim_via (split_byte ","%char x))).
 
-Lemma jline_rp al : al <> [] -> forallb wf_via al = true -> jline (rp_via al) = Some (map ja_of al).
+Lemma jline_rp al : al <> [] -> forallb wf_via_shape al = true -> jline (rp_via al) = Some (map ja_of al).
 Proof.
   intros NE H. rewrite forallb_forall in H. unfold jline, rp_via.
   rewrite split_join.
@@ -528,7 +528,7 @@ Lemma vp_ok_iff v : vp_ok v = true <->
   safe1 (v_name v) = true /\ safe1 (v_version v) = true /\ safe1 (v_transport v) = true /\
   safe1 (v_host v) = true /\ (0 <= v_port v <= 65535) /\ forallb pk_ok (v_params v) = true.
 Proof.
-  unfold vp_ok, wf_via, noslash, unembed_via.
+  unfold vp_ok, wf_via_shape, noslash, unembed_via.
   cbn [av_name av_version av_transport av_host av_port av_params].
   rewrite forallb_pk, !andb_true_iff.
   assert (P : wf_port (if Z.eqb (v_port v) 0 then None else Some (v_port v)) = true <-> 0 <= v_port v <= 65535).
@@ -1342,9 +1342,9 @@ Lemma parse_start_line_kind l st : parse_start_line l = Ok st ->
   (match st with SReq _ _ _ => true | _ => false end) = negb (has_prefix (s2b "SIP/") l).
 Proof.
   unfold parse_start_line. destruct (has_prefix (s2b "SIP/") l).
-  - unfold parse_status_line. destruct (fields l) as [|v [|c0 [|r1 rs]]]; try discriminate.
+  - unfold parse_status_line. destruct (fields_go l) as [|v [|c0 [|r1 rs]]]; try discriminate.
     destruct (atoi c0); [|discriminate]. intros H. injection H as <-. reflexivity.
-  - unfold parse_request_line. destruct (fields l) as [|m0 [|u [|v [|x y]]]]; try discriminate.
+  - unfold parse_request_line. destruct (fields_go l) as [|m0 [|u [|v [|x y]]]]; try discriminate.
     destruct (parse_addr_spec u); try discriminate. cbn [rbind]. intros H. injection H as <-. reflexivity.
 Qed.
 
@@ -1591,10 +1591,10 @@ Proof. apply fields_aux_spec. intros c []. Qed.
 
 Lemma parse_cseq_lf s c : parse_cseq s = Ok c -> lf_free (cseq_print c).
 Proof.
-  unfold parse_cseq. destruct (fields s) as [|n [|m [|x y]]] eqn:F; try discriminate.
+  unfold parse_cseq. destruct (fields_go s) as [|n [|m [|x y]]] eqn:F; try discriminate.
   destruct (atoi n); [|discriminate]. intros H. injection H as <-. unfold cseq_print. cbn [cs_seq cs_method].
   apply lf_app_i; [apply itoa_no_lf|]. apply lf_cons_i; [nlf|]. apply nospace_lf.
-  refine (proj2 (fields_spec s m _)). rewrite F. right. left. reflexivity.
+  refine (proj2 (fields_go_spec s m _)). rewrite F. right. left. reflexivity.
 Qed.
 
 Theorem dec_ok_lf s : lf_free s -> dec_ok s.
@@ -1610,13 +1610,13 @@ Lemma request_line_ok l meth uri ver :
   parse_start_line l = Ok (SReq meth uri ver) -> start_ok (start_line_print (SReq meth uri ver)).
 Proof.
   unfold parse_start_line. destruct (has_prefix (s2b "SIP/") l).
-  - unfold parse_status_line. destruct (fields l) as [|v [|c0 [|r1 rs]]]; try discriminate.
+  - unfold parse_status_line. destruct (fields_go l) as [|v [|c0 [|r1 rs]]]; try discriminate.
     destruct (atoi c0); discriminate.
-  - unfold parse_request_line. destruct (fields l) as [|m0 [|u [|v [|x y]]]] eqn:F; try discriminate.
+  - unfold parse_request_line. destruct (fields_go l) as [|m0 [|u [|v [|x y]]]] eqn:F; try discriminate.
     destruct (parse_addr_spec u) as [a| |] eqn:E; try discriminate. cbn [rbind]. intros H. injection H as <- <- <-.
-    destruct (fields_spec l m0) as [M1 M2]; [rewrite F; left; reflexivity|].
-    destruct (fields_spec l u) as [_ U2]; [rewrite F; right; left; reflexivity|].
-    destruct (fields_spec l v) as [_ V2]; [rewrite F; right; right; left; reflexivity|].
+    destruct (fields_go_spec l m0) as [M1 M2]; [rewrite F; left; reflexivity|].
+    destruct (fields_go_spec l u) as [_ U2]; [rewrite F; right; left; reflexivity|].
+    destruct (fields_go_spec l v) as [_ V2]; [rewrite F; right; right; left; reflexivity|].
     cbn [start_line_print]. split.
     + apply lf_app_i; [apply nospace_lf; exact M2|]. apply lf_cons_i; [nlf|].
       apply lf_app_i; [apply addr_spec_print_lf; exact (parse_addr_spec_lf _ _ (nospace_lf _ U2) E)|].
@@ -1640,7 +1640,7 @@ Proof.
   exists (map embed_via al). split; [apply parse_via_rp; assumption|]. split.
   - split; [destruct al; [exfalso; apply NE; reflexivity|discriminate]|]. split.
     + apply forallb_forall. intros v Iv. apply in_map_iff in Iv. destruct Iv as (a & <- & Ia).
-      apply vp_ok_embed. rewrite forallb_forall in W. exact (W a Ia).
+      apply vp_ok_embed, wf_via_weaken. rewrite forallb_forall in W. exact (W a Ia).
     + rewrite via_print_embed by exact W. exact (proj2 (proj1 (trim_fix_iff _) T)).
   - apply via_print_embed. exact W.
 Qed.
@@ -1880,7 +1880,7 @@ Definition via_domain_b (m : message) : bool :=
                       match h_val h with
                       | HRaw s => match parse_via s with
                                   | Ok l => match l with [] => false | _ :: _ => true end &&
-                                            forallb vp_ok l && beq (via_print l) s
+                                            forallb (fun v => wf_via (unembed_via v)) l && beq (via_print l) s
                                   | _ => false end
                       | _ => true end
                     else true) (m_headers m).
@@ -1893,7 +1893,8 @@ Proof.
   split.
   - apply forallb_forall. intros a Ia. apply in_map_iff in Ia. destruct Ia as (v & <- & Iv).
     rewrite forallb_forall in H2. exact (H2 v Iv).
-  - rewrite <- H3. apply via_print_rp. exact H2.
+  - rewrite <- H3. apply via_print_rp. rewrite forallb_forall in *. intros v Iv.
+    exact (wf_via_weaken _ (H2 v Iv)).
 Qed.
 
 (* ====================================================================== Part 9: example *)
